@@ -32,6 +32,14 @@ Theorem C06_fubini_with_cell_lengths : forall (K : FOps), FLaws K -> forall sh a
 Proof. exact total_integrate_dir. Qed.
 Print Assumptions C06_fubini_with_cell_lengths.
 
+(* hence: integrating direction by direction in ANY order (any sequence of remaining axes) gives the
+   same number; when all axes are used up the single remaining entry is the total *)
+Theorem C06_fubini_any_order : forall (K : FOps), FLaws K -> forall axs sh (f : idx -> K),
+  axes_valid axs (length sh) ->
+  total K (fst (reduce_axes K axs sh f)) (snd (reduce_axes K axs sh f)) = total K sh f.
+Proof. exact total_reduce_axes. Qed.
+Print Assumptions C06_fubini_any_order.
+
 (* cumulative integral: c_j = h * (sum of the preceding cells + half the cell's own value) *)
 Theorem C06_cumulative : forall (K : FOps), FLaws K -> forall h (a : list K) j,
   (j < length a)%nat ->
